@@ -3,3 +3,6 @@ pub mod slices;
 pub mod ranges;
 pub mod chars;
 pub mod splits;
+pub mod byvalue;
+pub mod byvalue_model;
+pub mod byvalue_ops;
